@@ -70,7 +70,7 @@ def rule_projection_list(eng, rep, rule="C09-2.bound-box-projected-last-and-neve
         for p in pl.items[:-1]:
             if p.k != "user":
                 rep.bad(rule, "Model.projections [%r]" % c, "solver.solve|non-user-projector-before-box", "a non-user projector precedes the box")
-    rep.require_count(rule, "mutations of projection lists inspected", nmut, 3)
+    rep.require_count(rule, "mutations of projection lists inspected", nmut, 2)      # the box append in solve + at least one trust-region-ball append (today 4: three step routines build their own list)
 
 
 def _is_fresh_copy(eng, fi, name_node):
